@@ -27,7 +27,6 @@ contract(FN, "Node.copy", {"self": "Node", "content": "opt[Fragment]"}, returns=
 
 # ---- close: the only place where replace builds a node around new content validates that content
 contract(FR, "close", {"node": "Node", "content": "Fragment"}, returns="Node",
-         requires=["not node.type.is_text"],
          raises={"ReplaceError": "not valid_seq(node.type, content.content)"},
          ensures=["result.type == node.type", "result.content == content", "result.marks == node.marks", "result.attrs == node.attrs",
                   "valid_seq(result.type, result.content.content)"],
@@ -42,10 +41,6 @@ contract(FR, "joinable", {"before": "ResolvedPos", "after": "ResolvedPos", "dept
          ensures=["result == rp_node(before, depth)"], props=P + ["C02"])
 
 # ---- replace(): the two open-depth guards, then the recursive rebuild (bounded: C02 token oracle)
-contract(FR, "replace_outer", {"from_": "ResolvedPos", "to": "ResolvedPos", "slice": "Slice", "depth": "int"}, returns="Node",
-         may_raise={"ReplaceError": "True"},
-         trusted="C02 / C01 (bounded): the recursive rebuild along the two resolved positions; every node it builds around new content goes through close (proved above)",
-         props=P)
 SC = "slice.content.content"
 contract(FR, "open_depths_fit", {"slice": "Slice"}, returns="bool", ensures=["result == odfit(slice)"],
          loops={0: dict(invariant=[
@@ -67,17 +62,20 @@ contract(FN, "Node.resolve", {"self": "Node", "pos": "int"}, returns="ResolvedPo
 contract("prosemirror/model/resolvedpos.py", "ResolvedPos.resolve_cached", {"doc": "Node", "pos": "int"}, returns="ResolvedPos",
          raises={"ValueError": OUT.format(d="doc")}, ensures=["result.pos == pos", "rp_node(result, 0) == doc"], props=P + ["C09"])
 RANGE = "from_ < 0 or from_ > {d}.content.size or to < 0 or to > {d}.content.size"
+PAYLOAD = "implies(slice.open_start == 0 and slice.open_end == 0, fvalid(slice.content.content))"
 contract(FN, "Node.replace", {"self": "Node", "from_": "int", "to": "int", "slice": "Slice"}, returns="Node",
-         may_raise={"ValueError": RANGE.format(d="self"), "ReplaceError": "True"},
-         # out-of-range positions are reported, never indexed with
-         ensures=["0 <= from_ and from_ <= self.content.size and 0 <= to and to <= self.content.size"],
+         may_raise={"ValueError": "True", "ReplaceError": "True"},
+         # out-of-range positions are reported, never indexed with; a deeply valid document stays deeply valid
+         ensures=["0 <= from_ and from_ <= self.content.size and 0 <= to and to <= self.content.size",
+                  f"dvalid(self) and not self.type.is_text and {PAYLOAD} ==> dvalid(result)", "result.type == self.type"],
          props=P + ["C02"])
 
 # ---- step results
 contract(FST, "StepResult.from_replace", {"doc": "Node", "from_": "int", "to": "int", "slice": "Slice"}, returns="StepResult",
          # a ReplaceError becomes a failed result; only an out-of-range position may raise (ValueError)
-         may_raise={"ValueError": "from_ < 0 or from_ > doc.content.size or to < 0 or to > doc.content.size"},
-         ensures=["(result.failed is None) == (result.doc is not None)"],
+         may_raise={"ValueError": "True"},
+         ensures=["(result.failed is None) == (result.doc is not None)",
+                  f"dvalid(doc) and not doc.type.is_text and {PAYLOAD} and result.doc is not None ==> dvalid(result.doc)"],
          props=P)
 
 contract(FRS, "content_between", {"doc": "Node", "from_": "int", "to": "int"}, returns="bool",
@@ -135,7 +133,9 @@ contract(FRS, "ReplaceStep.apply", {"self": "ReplaceStep", "doc": "Node"}, retur
          may_raise={"ValueError": "True"},
          ensures=["(result.failed is None) == (result.doc is not None)",
                   # a structure step never overwrites content
-                  f"({STRUCT_RS}) ==> result.failed is not None"],
+                  f"({STRUCT_RS}) ==> result.failed is not None",
+                  # C01 for replace steps: from a deeply valid document and a payload-valid slice, a step that does not fail yields a deeply valid document
+                  "dvalid(doc) and not doc.type.is_text and implies(self.slice.open_start == 0 and self.slice.open_end == 0, fvalid(self.slice.content.content)) and result.doc is not None ==> dvalid(result.doc)"],
          props=P)
 contract(FRS, "ReplaceAroundStep.apply", {"self": "ReplaceAroundStep", "doc": "Node"}, returns="StepResult",
          may_raise={"ValueError": "True"},
@@ -155,3 +155,149 @@ contract(FR, "Slice.insert_at", {"self": "Slice", "pos": "int", "fragment": "Fra
 for _k in ("NodeType.compatible_content", "NodeType.valid_content", "ContentMatch.compatible"):
     if "C02" not in _api.CONTRACTS[_k].props:
         _api.CONTRACTS[_k].props.append("C02")
+
+
+# =====================================================================================================
+# deep validity of the deletion path of replace (two-way rebuild): every node of the result is valid
+# =====================================================================================================
+FP_ = "prosemirror/model/resolvedpos.py"
+cls("TextNode", FN, {}, bases=["Node"])
+contract(FN, "TextNode.with_text", {"self": "TextNode", "text": "str"}, returns="TextNode",
+         trusted="TextNode constructor (text nodes are built only here and in Schema.text): same type, attributes and marks", 
+         ensures=["result.type == self.type", "result.marks == self.marks", "result.attrs == self.attrs", "result.text == text"], props=P)
+contract(FN, "Node.cut", {"self": "Node", "from_": "int", "to": "opt[int]"}, returns="Node", virtual=True,
+         virtual_ensures=["self.type.is_text ==> result.type == self.type"],
+         trusted="dynamic dispatch: for a text node this is TextNode.cut (encode / slice / decode, A7), which returns a text node of the same type; for other nodes nothing is promised here",
+         props=P)
+contract(FP_, "ResolvedPos.node_after", {"self": "ResolvedPos"}, returns="opt[Node]", is_property=True,
+         ensures=["(result is None) == (rp_index(self, self.depth) == len(rp_node(self, self.depth).content.content))",
+                  "result is not None and rp_toff(self) == 0 ==> result == rp_node(self, self.depth).content.content[rp_index(self, self.depth)]",
+                  "result is not None and rp_toff(self) != 0 ==> result.type.is_text and dvalid(result)"], props=P + ["C09"])
+contract(FP_, "ResolvedPos.node_before", {"self": "ResolvedPos"}, returns="opt[Node]", is_property=True,
+         ensures=["rp_toff(self) != 0 ==> result is not None and result.type.is_text and dvalid(result)",
+                  "rp_toff(self) == 0 ==> (result is None) == (rp_index(self, self.depth) == 0)",
+                  "rp_toff(self) == 0 and result is not None ==> result == rp_node(self, self.depth).content.content[rp_index(self, self.depth) - 1]"], props=P + ["C09"])
+
+lemma("dvalid-text", {"n": "Node"}, requires=["n.type.is_text"], ensures=["dvalid(n)"], props=P + ["C02"])
+lemma("dvalid-kids", {"n": "Node", "k": "int"}, requires=["dvalid(n)", "not n.type.is_text", "0 <= k", "k < len(n.content.content)"],
+      ensures=["dvalid(n.content.content[k])", "valid_seq(n.type, n.content.content)"], terms=["fvalid(n.content.content)"], props=P + ["C02"])
+lemma("dvalid-intro", {"n": "Node"}, requires=["not n.type.is_text", "valid_seq(n.type, n.content.content)", "fvalid(n.content.content)"],
+      ensures=["dvalid(n)"], props=P + ["C02"])
+
+lemma("fvalid-update", {"c": "list[Node]", "u": "list[Node]", "x": "Node", "i": "int"},
+      requires=["fvalid(c)", "dvalid(x)", "0 <= i", "i < len(c)", "len(u) == len(c)", "u[i] == x", "all_(0, len(c), lambda j: implies(j != i, u[j] == c[j]))"],
+      ensures=["fvalid(u)"], props=P + ["C02"])
+lemma("fvalid-append", {"c": "list[Node]", "u": "list[Node]", "x": "Node"},
+      requires=["fvalid(c)", "dvalid(x)", "len(u) == len(c) + 1", "u[len(c)] == x", "all_(0, len(c), lambda j: u[j] == c[j])"],
+      ensures=["fvalid(u)"], props=P + ["C02"])
+
+contract(FR, "add_node", {"child": "Node", "target": "list[Node]"}, mutates=["target"],
+         ensures=["dvalid(child) and fvalid(old(target)) ==> fvalid(target)", "len(target) >= len(old(target))", "len(target) >= 1"],
+         calls=[("dvalid-text", ["target[len(target) - 1]"]), ("fvalid-update", ["old(target)", "target", "target[len(target) - 1]", "len(old(target)) - 1"]),
+                ("fvalid-append", ["old(target)", "target", "child"])],
+         props=P + ["C02"])
+
+RPC1 = "all_(0, {r}.depth, lambda d: p3b({r}.path, d) < len(p3a({r}.path, d).content.content) and p3a({r}.path, d + 1) == p3a({r}.path, d).content.content[p3b({r}.path, d)])"
+RPC2 = "all_(1, {r}.depth + 1, lambda d: not p3a({r}.path, d).type.is_text)"
+RPC0 = "all_(0, {r}.depth + 1, lambda d: 0 <= p3b({r}.path, d) and p3b({r}.path, d) <= len(p3a({r}.path, d).content.content))"
+lemma("rp-dvalid", {"rp": "ResolvedPos", "k": "int"},
+      requires=["0 <= k", "k <= rp.depth", "dvalid(p3a(rp.path, 0))", "not p3a(rp.path, 0).type.is_text", RPC0.format(r="rp"), RPC1.format(r="rp"), RPC2.format(r="rp")],
+      ensures=["dvalid(p3a(rp.path, k))"], induct="k", calls=[("dvalid-kids", ["p3a(rp.path, k - 1)", "p3b(rp.path, k - 1)"])], props=P + ["C02"])
+
+SE = "(end if end is not None else start)"
+contract(FR, "add_range", {"start": "opt[ResolvedPos]", "end": "opt[ResolvedPos]", "depth": "int", "target": "list[Node]"}, mutates=["target"],
+         requires=["start is not None or end is not None", "0 <= depth",
+                   "start is not None ==> depth <= start.depth", "end is not None ==> depth <= end.depth",
+                   "start is not None and end is not None ==> rp_node(start, depth) == rp_node(end, depth)"],
+         # children of a deeply valid (non-text) node, and cut text nodes, are added: deep validity of the list is kept
+         ensures=[f"dvalid(rp_node({SE}, depth)) and not rp_node({SE}, depth).type.is_text and fvalid(old(target)) ==> fvalid(target)"],
+         loops={0: dict(invariant=[f"dvalid(rp_node({SE}, depth)) and not rp_node({SE}, depth).type.is_text and fvalid(old(target)) ==> fvalid(target)",
+                                   "0 <= i", f"end_index <= len(rp_node({SE}, depth).content.content)", f"node == rp_node({SE}, depth)"],
+                        decreases="end_index - i")},
+         calls_func={"add_node": [("dvalid-kids", ["node", "i"])]},
+         props=P + ["C02"])
+
+contract(FR, "replace_two_way", {"from_": "ResolvedPos", "to": "ResolvedPos", "depth": "int"}, returns="Fragment",
+         requires=["0 <= depth", "depth <= from_.depth", "from_.depth == to.depth"],
+         may_raise={"ReplaceError": "True"},
+         # for positions in deeply valid documents, every node of what the two-way rebuild returns is deeply valid
+         ensures=["dvalid(rp_node(from_, 0)) and not rp_node(from_, 0).type.is_text and dvalid(rp_node(to, 0)) and not rp_node(to, 0).type.is_text ==> fvalid(result.content)"],
+         decreases="from_.depth - depth",
+         calls_func={"add_range": [("rp-dvalid", ["from_", "depth"]), ("rp-dvalid", ["to", "depth"])],
+                     "joinable": [("rp-dvalid", ["from_", "depth + 1"])]},
+         uses=["pre-nonneg"],
+         locals={"content": "list[Node]"},
+         props=P + ["C02"])
+
+
+# ---- validity depends only on the children's types and marks (extensionality lemmas)
+SAMET = "all_(0, len(c), lambda j: u[j].type == c[j].type)"
+lemma("run-ext", {"m": "ContentMatch", "c": "list[Node]", "u": "list[Node]", "i": "int", "e": "int"},
+      requires=["len(u) == len(c)", SAMET, "0 <= i", "e <= len(c)"],
+      ensures=["run_ok(m, c, i, e) == run_ok(m, u, i, e)", "run_st(m, c, i, e) == run_st(m, u, i, e)"],
+      induct="i", step=1, decreases="e - i", generalize=["m"], props=P + ["C02"])
+lemma("fbc-ext", {"nt": "NodeType", "c": "list[Node]", "u": "list[Node]", "i": "int", "e": "int"},
+      requires=["len(u) == len(c)", "all_(0, len(c), lambda j: u[j].marks == c[j].marks)", "e <= len(c)"],
+      ensures=["(first_bad_child(nt, c, i, e) < 0) == (first_bad_child(nt, u, i, e) < 0)"],
+      induct="i", step=1, decreases="e - i", props=P + ["C02"])
+lemma("valid-seq-ext", {"nt": "NodeType", "c": "list[Node]", "u": "list[Node]"},
+      requires=["len(u) == len(c)", SAMET, "all_(0, len(c), lambda j: u[j].marks == c[j].marks)"],
+      ensures=["valid_seq(nt, c) == valid_seq(nt, u)"],
+      calls=[("run-ext", ["nt.content_match", "c", "u", "0", "len(c)"]), ("fbc-ext", ["nt", "c", "u", "0", "len(c)"])], props=P + ["C02"])
+lemma("rp-at-boundary", {"rp": "ResolvedPos"},
+      requires=["rp.depth >= 0", RPC0.format(r="rp"),
+                "p3c(rp.path, 0) == pre(p3a(rp.path, 0).content.content, p3b(rp.path, 0))",
+                "all_(1, rp.depth + 1, lambda d: p3c(rp.path, d) == p3c(rp.path, d - 1) + 1 + pre(p3a(rp.path, d).content.content, p3b(rp.path, d)))",
+                "rp.pos >= p3c(rp.path, rp.depth)",
+                "rp.pos == p3c(rp.path, rp.depth) or (p3b(rp.path, rp.depth) < len(p3a(rp.path, rp.depth).content.content) and p3a(rp.path, rp.depth).content.content[p3b(rp.path, rp.depth)].type.is_text"
+                " and rp.pos - p3c(rp.path, rp.depth) < nsize(p3a(rp.path, rp.depth).content.content[p3b(rp.path, rp.depth)]))",
+                "rp.parent_offset == rp.pos - (0 if rp.depth == 0 else p3c(rp.path, rp.depth - 1) + 1)"],
+      ensures=["at_boundary(p3a(rp.path, rp.depth).content.content, rp.parent_offset)", "0 <= rp.parent_offset"],
+      calls=[("bidx-unique", ["p3a(rp.path, rp.depth).content.content", "rp.parent_offset", "p3b(rp.path, rp.depth)", "0"]),
+             ("pre-nonneg", ["p3a(rp.path, rp.depth).content.content", "p3b(rp.path, rp.depth)"])],
+      terms=["pre(p3a(rp.path, rp.depth).content.content, p3b(rp.path, rp.depth) + 1)"], props=P + ["C02"])
+
+
+# ---- replace_outer: every node of the document replace returns is valid
+_fa = _api.CONTRACTS["Fragment.append"]
+_fa.cases[0]["ensures"] = list(_fa.cases[0]["ensures"]) + ["fvalid(self.content) and fvalid(other.content) ==> fvalid(result.content)"]
+_fa.trusted = "C02 (bounded): the result's children are children of the two fragments, the two nodes at the seam possibly merged into one text node; only the size equation and preservation of deep validity are used"
+_fa.props = list(set(_fa.props + P))
+_fc = _api.CONTRACTS["Fragment.cut"]
+_fc.cases[0]["ensures"] = ["fvalid(self.content) and at_boundary(self.content, from_) and (to is None or at_boundary(self.content, to)) ==> fvalid(result.content)"]
+_fc.trusted = ("C02 (bounded): cutting at child boundaries or inside text children yields original children and cut text nodes "
+               "(a cut strictly inside a non-text child would yield a partial node: excluded by the at_boundary premises)")
+contract(FR, "prepare_slice_for_replace", {"slice": "Slice", "along": "ResolvedPos"}, returns="dict{start:ResolvedPos,end:ResolvedPos}",
+         may_raise={"ValueError": "True"},
+         trusted="C02 (bounded): wraps the slice content in copies of the ancestors of the insertion point and resolves the two open ends in it", props=P)
+contract(FR, "replace_three_way", {"from_": "ResolvedPos", "start": "ResolvedPos", "end": "ResolvedPos", "to": "ResolvedPos", "depth": "int"}, returns="Fragment",
+         may_raise={"ReplaceError": "True", "ValueError": "True"},
+         ensures=["dvalid(rp_node(from_, 0)) and not rp_node(from_, 0).type.is_text ==> fvalid(result.content)"],
+         trusted="C01 / C02 (bounded): the three-way rebuild around an open or non-flat slice; that every node it returns is deeply valid is ASSUMED here for payload-valid slices "
+                 "(every node it builds around new content goes through close, which is proved; nodes taken from the slice are valid by the payload precondition) and checked by the bounded oracle",
+         props=P)
+
+SAME = "all_(0, depth + 1, lambda k: rp_node(from_, k) == rp_node(to, k))"
+# the hypothesis of C01: the document is deeply valid (and a real document, not a text node), and the
+# nodes of a closed slice are themselves deeply valid (for an open slice see replace_three_way)
+VALID_IN = "(dvalid(rp_node(from_, 0)) and not rp_node(from_, 0).type.is_text and implies(slice.open_start == 0 and slice.open_end == 0, fvalid(slice.content.content)))"
+contract(FR, "replace_outer", {"from_": "ResolvedPos", "to": "ResolvedPos", "slice": "Slice", "depth": "int"}, returns="Node",
+         requires=["0 <= depth", "depth <= from_.depth - slice.open_start", "depth <= to.depth - slice.open_end", f"not ({GUARD})", SAME],
+         may_raise={"ReplaceError": "True", "ValueError": "True"},
+         # for a deeply valid document and a payload-valid slice (VALID_IN) the rebuilt node is deeply valid
+         ensures=[f"{VALID_IN} ==> dvalid(result)", "result.type == rp_node(from_, depth).type", "result.marks == rp_node(from_, depth).marks"],
+         decreases="from_.depth - depth",
+         calls_func={"replace_outer": [("rp-dvalid", ["from_", "depth"])],
+                     "replace_two_way": [("pre-step", ["slice.content.content", "0", "len(slice.content.content)"])],
+                     "close": [("rp-dvalid", ["from_", "depth"]), ("rp-at-boundary", ["from_"]), ("rp-at-boundary", ["to"]), ("rp-dvalid", ["from_", "from_.depth"]),
+                               ("dvalid-kids", ["rp_node(from_, from_.depth)", "0"])]},
+         calls=[("rp-dvalid", ["from_", "depth"]), ("dvalid-kids", ["node", "index"]),
+                ("valid-seq-ext", ["node.type", "node.content.content", "result.content.content"]),
+                ("fvalid-update", ["node.content.content", "result.content.content", "inner", "index"]),
+                ("dvalid-intro", ["result"])],
+         locals={"inner": "Node"},
+         uses=["pre-nonneg"],
+         props=P + ["C02"])
+_api.CONTRACTS["replace"].requires = ["rp_node(from_, 0) == rp_node(to, 0)"]
+_api.CONTRACTS["replace"].cases[0]["ensures"] = [f"{VALID_IN} ==> dvalid(result)", "result.type == rp_node(from_, 0).type"]
+_api.CONTRACTS["replace"].may_raise = {"ValueError": "True", "ReplaceError": "True"}
